@@ -280,6 +280,11 @@ func checkC03(w *World, r *Report) {
 		// no argument: the closure must not read the scope cell at all (checked above) - otherwise nothing to add
 	}
 	ruleObject(m, r, e, reg)
+	// "the thrown value is delivered to the nearest enclosing catch clause": the handler's scope is built by the
+	// binder, which binds the catch symbol - whatever its name - to the caught object
+	r.include("C03.catch-", "C01.", "the catch symbol is bound to the caught object like any parameter to its argument", checkC01, func(rule string) bool {
+		return rule == "C01.binds"
+	})
 	tryShapeRule(m, r)
 	catchPresentRule(m, r, "C03.delivered")
 	recoverDirectRule(w, r, "C03.recover-direct")
@@ -1567,6 +1572,36 @@ func checkC12(w *World, r *Report) {
 			r.check(okApp && nreg == 0, "C12.expand-always", m.EVAL, "macro expansion before the dispatch", mx.Pos(), fmt.Sprintf("dominates all %d special-form regions and the application", len(m.regionNames)), "the application can be reached without macro expansion")
 		}
 	}
+	// whether a form is a macro call is decided when - and in the scope where - it is evaluated
+	r.rule("C12.expand-site", "macro expansion happens in two places only: at the top of the evaluation loop, on the form about to be evaluated, and in the macroexpand special form; no other part of the evaluator (the fn form building a closure, the body helper handing back a tail form) expands forms ahead of their evaluation or tests them for being macro calls, since the scope that decides - a parameter that shadows a macro, a macro redefined later - is the scope at evaluation time")
+	{
+		nes := 0
+		for _, ec := range m.evalCalls() {
+			if ec.callee != m.macroexpand {
+				continue
+			}
+			nes++
+			regs := m.regionSet(ec.call.Block())
+			okSite := false
+			switch {
+			case ec.fn == m.EVAL && m.regionOf(ec.call.Block()) == "" && !m.defaultRegion[ec.call.Block()]:
+				okSite = true // the expansion at the top of the loop
+			case len(regs) == 1 && regs["macroexpand"]:
+				okSite = true
+			}
+			r.check(okSite, "C12.expand-site", ec.fn, "call of the macro expander", ec.call.Pos(), "the top of the loop or the macroexpand form", "a form is expanded ahead of its evaluation (in "+nz(m.regionOf(ec.call.Block()), w.fnName(ec.fn))+"): the macro test runs in the scope of that moment, so a parameter that shadows a macro's name, or a later redefinition, is ignored when the form is finally evaluated - the call no longer means what its expansion at evaluation time means")
+		}
+		for _, fn := range m.evalFuncs() {
+			if fn == m.macroexpand {
+				continue
+			}
+			for _, c := range staticCallsTo(fn, m.isMacroCall) {
+				nes++
+				r.bad("C12.expand-site", fn, "macro test outside the expander", c.Pos(), w.fnName(fn)+" tests a form for being a macro call itself: the decision is taken ahead of the form's evaluation, in whatever scope is current then")
+			}
+		}
+		r.floor("C12.expand-site", "calls of the macro expander", nes, 2)
+	}
 	// the expansion is evaluated, whatever kind of form it is
 	r.rule("C12.expansion-evaluated", "before the dispatch EVAL hands a form back as its own value only when that form is known to be a list (the empty list evaluates to itself): every other form a macro expands to - symbol, vector, hash-map, set - goes through eval_ast, so the call means what its expansion means")
 	{
@@ -2498,6 +2533,9 @@ func tryShapeRule(m *evalModel, r *Report) {
 	n := 0
 	scan := func(fn *ssa.Function, inScope func(*ssa.BasicBlock) bool, form string) {
 		X := form + ".(types.List).Val"
+		if strings.HasPrefix(form, "=") {
+			X = form[1:] // the operand list itself was handed over
+		}
 		last1 := X + "[len(" + X + ")-1]"
 		last2 := X + "[len(" + X + ")-2]"
 		lastAlt := []string{last1, last2, X + "[1]", X + "[2]", "φ"} // `last`/`prelast` are phis over the length switch
@@ -2583,12 +2621,25 @@ func tryShapeRule(m *evalModel, r *Report) {
 				continue
 			}
 			whole := false
+			// the splitter is handed the operand list, or else the whole form (it may get both: the form then
+			// only positions its errors)
+			variant := ""
 			for i, a := range c.Call.Args {
-				if canonVal(m.e, a) == form {
-					whole = true
-					doneSplit[c.Call.StaticCallee()] = true
-					scan(c.Call.StaticCallee(), func(*ssa.BasicBlock) bool { return true }, fmt.Sprintf("p%d", i))
+				if canonVal(m.e, a) == form+".(types.List).Val" {
+					variant = fmt.Sprintf("=p%d", i)
 				}
+			}
+			if variant == "" {
+				for i, a := range c.Call.Args {
+					if canonVal(m.e, a) == form {
+						variant = fmt.Sprintf("p%d", i)
+					}
+				}
+			}
+			if variant != "" {
+				whole = true
+				doneSplit[c.Call.StaticCallee()] = true
+				scan(c.Call.StaticCallee(), func(*ssa.BasicBlock) bool { return true }, variant)
 			}
 			if !whole {
 				// a helper that is handed one clause: its slices, with the arguments of this call put in for
